@@ -516,4 +516,15 @@ theorem refines_subtract : PageOpRefines CPage.subtract opSubtract :=
 theorem refines_revSubtract : PageOpRefines CPage.revSubtract opRevSubtract :=
   ⟨fun a b ha hb => refines_subtract.ok b a hb ha, fun a b ha hb => refines_subtract.abs b a hb ha⟩
 
+/-! ### `PartialEq for BitPage` compares the storage: the abstraction is injective -/
+
+theorem pack_injective (es es' : List Nat) (hl : es.length = es'.length)
+    (h : ∀ e ∈ es, e < 2 ^ 64) (h' : ∀ e ∈ es', e < 2 ^ 64) (hp : pack es = pack es') : es = es' := by
+  apply List.ext_getElem hl
+  intro i h1 h2
+  have a1 := pack_elem es h i
+  have a2 := pack_elem es' h' i
+  rw [hp, a2] at a1
+  simpa [List.getD_eq_getElem?_getD, h1, h2] using a1.symm
+
 end FontVerif.IntSet
